@@ -23,6 +23,7 @@ RULE = (
     "knock-out states.  Non-trivial when the secondary optimum differs from the FBA vertex's "
     "value (pFBA) / the knock-out changes the reference (MOMA, ROOM); distinct by (model hash, "
     "method, arguments)."
+    " A quarter of the models has capacities of 2 500-8 000 (fluxes beyond the configured default bounds); 40 % of the references are handed over in another index order."  # third-session additions
 )
 ASSUMPTIONS = [
     "totals compared with 1e-6 relative; ROOM band membership judged with 1e-5 slack (big-M x integrality tolerance)",
